@@ -280,29 +280,14 @@ pub mod sched {
       }
       return;
     }
-    if PREEMPT_AT.load(Relaxed) != u32::MAX {
-      // fixed-index mode: a yield is an ordinary scheduling point; spinning on past the budget
-      // while an actor is still waiting for its index is the same schedule as an earlier index
-      point();
-      let n = SPINS.load(Relaxed) + 1;
-      SPINS.store(n, Relaxed);
-      if n > SPIN_BUDGET.load(Relaxed) {
-        if DEPTH.load(Relaxed) == 0 && pending() == 0 {
-          stuck();
-        } else {
-          infeasible();
-        }
-      }
-      return;
-    }
-    if DEPTH.load(Relaxed) < MAX_DEPTH.load(Relaxed) && pending() > 0 {
-      run_one();
-      return;
-    }
+    // A yield is an ordinary scheduling point (the solver may start an actor here, it is not forced to).
+    // Spinning on past the budget while an actor has still not started is the same schedule as one
+    // where it started earlier, so that path is dropped; with nobody left to run it is a livelock.
+    point();
     let n = SPINS.load(Relaxed) + 1;
     SPINS.store(n, Relaxed);
     if n > SPIN_BUDGET.load(Relaxed) {
-      if DEPTH.load(Relaxed) == 0 {
+      if DEPTH.load(Relaxed) == 0 && pending() == 0 {
         stuck();
       } else {
         infeasible();
